@@ -479,6 +479,8 @@ pub trait BoolKind: 'static {
     fn build(mref: &MRefOf<Self>, t: Tab) -> AllocResult<Self::F>;
     fn audit(mref: &MRefOf<Self>, live: &[&Self::F], check_rc: bool) -> AuditInfo;
     fn set_order(mref: &MRefOf<Self>, order: &[u32]);
+    /// `oxidd_reorder::level_down` inside `Manager::reorder` (public API for single adjacent swaps)
+    fn level_down(mref: &MRefOf<Self>, level: u32);
     fn raw(f: &Self::F) -> RawEdge;
 }
 
@@ -515,6 +517,9 @@ impl BoolKind for Bdd {
     fn set_order(mref: &BDDManagerRef, order: &[u32]) {
         mref.with_manager_exclusive(|m| oxidd_reorder::set_var_order(m, order))
     }
+    fn level_down(mref: &BDDManagerRef, level: u32) {
+        mref.with_manager_exclusive(|m| m.reorder(|m| unsafe { oxidd_reorder::level_down(&*m, level) }))
+    }
     fn raw(f: &BDDFunction) -> RawEdge {
         f.with_manager_shared(|m, e| raw_edge(m, e))
     }
@@ -548,6 +553,9 @@ impl BoolKind for Bcdd {
     }
     fn set_order(mref: &BCDDManagerRef, order: &[u32]) {
         mref.with_manager_exclusive(|m| oxidd_reorder::set_var_order(m, order))
+    }
+    fn level_down(mref: &BCDDManagerRef, level: u32) {
+        mref.with_manager_exclusive(|m| m.reorder(|m| unsafe { oxidd_reorder::level_down(&*m, level) }))
     }
     fn raw(f: &BCDDFunction) -> RawEdge {
         f.with_manager_shared(|m, e| raw_edge(m, e))
@@ -592,6 +600,9 @@ impl BoolKind for Zbdd {
     }
     fn set_order(mref: &ZBDDManagerRef, order: &[u32]) {
         mref.with_manager_exclusive(|m| oxidd_reorder::set_var_order(m, order))
+    }
+    fn level_down(mref: &ZBDDManagerRef, level: u32) {
+        mref.with_manager_exclusive(|m| m.reorder(|m| unsafe { oxidd_reorder::level_down(&*m, level) }))
     }
     fn raw(f: &ZBDDFunction) -> RawEdge {
         f.with_manager_shared(|m, e| raw_edge(m, e))
